@@ -40,6 +40,8 @@ pub struct GenParams {
     pub soft: (u32, u32),
     /// probability that version sets contain the top-ranked candidate (clean profile)
     pub p_top: f64,
+    /// nothing mentions the last package; soft requirements are drawn from it
+    pub lone_last: bool,
 }
 
 impl GenParams {
@@ -67,6 +69,7 @@ impl GenParams {
             p_root_cons: 0.2,
             soft: (0, 0),
             p_top: 0.0,
+            lone_last: false,
         }
     }
 
@@ -221,6 +224,26 @@ impl GenParams {
                 soft: (0, 2),
                 ..b
             },
+            "softconflict" => GenParams {
+                // soft requirements whose installation needs search with conflicts
+                pkgs: (4, 7),
+                cands: (2, 3),
+                p_keep: 0.6,
+                p_allow_empty: 0.0,
+                reqs: (0, 2),
+                p_union: 0.05,
+                p_cons: 0.45,
+                p_missing: 0.0,
+                p_unknown: 0.0,
+                p_lock: 0.0,
+                p_excl: 0.0,
+                root_reqs: (1, 1),
+                root_full: true,
+                p_root_cons: 0.0,
+                soft: (1, 3),
+                lone_last: true,
+                ..b
+            },
             "small" => GenParams {
                 pkgs: (2, 4),
                 cands: (1, 3),
@@ -337,6 +360,20 @@ pub fn gen_universe(rng: &mut Rng, g: &GenParams) -> (Universe, Problem) {
     };
 
     let pick_target = |rng: &mut Rng, i: usize| -> Option<u32> {
+        if g.lone_last {
+            // the last package is never a target
+            if n <= 2 {
+                return None;
+            }
+            let mut j = rng.range(1, n as u32 - 1);
+            if j == i as u32 {
+                j = if j == 1 { 2 } else { j - 1 };
+            }
+            if j as usize >= n {
+                return None;
+            }
+            return Some(j);
+        }
         if g.acyclic {
             if i >= n {
                 None
@@ -397,8 +434,11 @@ pub fn gen_universe(rng: &mut Rng, g: &GenParams) -> (Universe, Problem) {
     let mut p = Problem::default();
     let nroot = rng.range(g.root_reqs.0, g.root_reqs.1);
     let mut names: Vec<u32> = (1..=n as u32).collect();
+    if g.lone_last && n > 1 {
+        names.pop();
+    }
     rng.shuffle(&mut names);
-    for k in 0..(nroot as usize).min(n) {
+    for k in 0..(nroot as usize).min(names.len()) {
         let j = names[k];
         let mut r = vec![mk_vs(rng, &u, j, g.root_full)];
         if rng.chance(g.p_root_union) {
@@ -420,7 +460,15 @@ pub fn gen_universe(rng: &mut Rng, g: &GenParams) -> (Universe, Problem) {
     let nsoft = rng.range(g.soft.0, g.soft.1);
     if !u.solv.is_empty() {
         for _ in 0..nsoft {
-            let s = rng.range(1, u.solv.len() as u32);
+            let mut s = rng.range(1, u.solv.len() as u32);
+            if g.lone_last && rng.chance(0.7) {
+                let last: Vec<u32> = (1..=u.solv.len() as u32)
+                    .filter(|&x| u.solv[x as usize - 1].name == n as u32)
+                    .collect();
+                if !last.is_empty() {
+                    s = *rng.pick(&last);
+                }
+            }
             if !p.soft.contains(&s) {
                 p.soft.push(s);
             }
